@@ -142,7 +142,10 @@ fn run_property(prop: &str, tier: Tier, rep: &mut Report) -> Plan {
             Plan { rule: "every accepted C02 case (decode side) and every state of the HIST graph (record side): byte-exact re-encode, bytes/text/JSON round trips, fields = independent parse", assumptions: vec![TRUST, BOUND_HIST, BOUND_INPUT] }
         }
         "C05" => {
-            run_hist(tier, if b { &["k256", "comb-secp", "comb-ed"] } else { &[] }, true, rep);
+            // quick: one scheme per code path (fault-* wrap k256/ed and are C06's; comb-secp shares k256's paths
+            // and runs in C08); thorough: all eight
+            let quick_a: &[&str] = &["k256", "libsecp", "ed", "comb-ed", "var"];
+            run_hist(tier, if b { &["k256", "comb-ed"] } else if tier == Tier::Quick { quick_a } else { &[] }, true, rep);
             hist::c09_builder_sweep::<K256S>(&[1, 127], 290, 304, rep);
             hist::c09_builder_sweep::<CombEdS>(&[1, 65535], 290, 304, rep);
             stateright_cross_check(tier, rep);
@@ -244,6 +247,8 @@ fn run_property(prop: &str, tier: Tier, rep: &mut Report) -> Plan {
                 #[cfg(feature = "cfg-a")]
                 pairs::run_c15_scheme::<LibSecpS>(tier, rep);
             }
+            pairs::run_c15_cross(rep);
+            rep.require_class("c15:cross:same-content-different-signer");
             rep.require_class("c15:equal-pairs-present");
             rep.require_class("c15:same-content-different-signature-pair");
             Plan { rule: "all ordered pairs of a pool of HIST states closed under clone, decode/encode, text round trip, re-signing, re-keying and one-field edits", assumptions: vec![TRUST, "std DefaultHasher::new() as the fixed hasher"] }
